@@ -159,10 +159,11 @@ PROPS.update({
         "technique": "stateless controlled-scheduler exploration of worker interleavings (iterative preemption bounding) plus exhaustive configuration lattice",
         "parts": [ktmc("C05sched"), ktmc("C05cfg")],
         "rule": "schedules: depth-first exploration by re-execution of every interleaving of the real mmap worker loop "
-                "(N=2 workers unbounded, N=3 up to the stated preemption bound) over 2-4 records with pairwise different "
-                "rows; oracle per schedule: output bytes = rows in input order; observed record->worker assignments "
-                "are listed (non-vacuity). configurations: record sets x threads 1..=16 x batch limits x both "
-                "writers x 7 containers (x header x delimiters): bytes identical to the rows in input order. "
+                "(N=2 and the small N=3 case unbounded, larger N=3 and N=4 up to the stated preemption bound) over 2-6 "
+                "records with pairwise different rows, at the default and at small batch-memory limits; oracle per schedule: output bytes = rows in input order; observed record->worker assignments "
+                "are listed (non-vacuity). configurations: record sets (incl. one very long record followed by "
+                "short ones) x threads 1..=16 x batch limits x both writers x 7 containers (x header x "
+                "delimiters), and every record count 0..=40, 63..65, 127, 129 x threads 1..=8, 16: row i = record i. "
                 "states = branching decision points + terminal states, transitions = scheduling steps executed, "
                 "traces = complete schedules executed on the real code. Every schedule/configuration is distinct.",
         "states": SCHED_STATES,
@@ -188,12 +189,15 @@ PROPS.update({
         "parts": [ktmc("C07sched"), ktmc("C07cfg")],
         "rule": "schedules: every interleaving (up to the stated preemption bound) of the real count() workers - limit "
                 "check, reader mutex, record taken, every map operation, atomic additions, exit - for 2-3 workers and "
-                "2-3 records colliding on the same k-mers under base limits 0, 4 and unlimited; merge() workers "
+                "2-4 records colliding on the same k-mers (same strand and opposite strands, with records that hold "
+                "no k-mer in between) under base limits 0, 4 and unlimited; merge() workers "
                 "explored once per distinct on-disk state between the phases and one partition at a time; oracle per "
                 "schedule: kmers.counts as a multiset of lines = model counts, one line per k-mer, temp files "
                 "present/absent as asked; observed (chunks, partitions, records per chunk) outcomes are listed. "
-                "configurations: every list of <= 2 (thorough 3) short records x k x 6 (threads, ceiling) settings "
-                "(1 to 14 chunks, 1 to 59 partitions), ACGT and numeric rendering, repetitive inputs for k 15, 31.",
+                "configurations: every single record over {A,C,G,T,N}^(<=4) and every pair over two alphabets holding "
+                "both strands (thorough: more alphabets and triples) x k x 8 (threads, ceiling) settings (1 to 14 "
+                "chunks, 1 to 700 partitions, one to 16 workers), ACGT and numeric rendering, repetitive inputs for "
+                "k 15, 31.",
         "states": SCHED_STATES,
         "assumptions": SCHED_ASSUME + ["merge scheduling is explored when chunks <= pool threads (otherwise which chunk tasks start first is rayon's choice and the phase runs free)",
                                        "configuration runs use free-running threads"],
